@@ -61,6 +61,10 @@ func VerifValued() {
 	val := v.Param("val") - 1
 	var r balanceRunner
 	zzSetFlags(&r)
+	detail := v.Param("detail") == 1 // -s ^Assets: per-commodity rows for asset accounts in the valued report
+	if detail {
+		r.showCommodities.Set("^Assets")
+	}
 	rows, err := zzReport(&r, func(reg *model.Registry) *journal.Builder { return zzBuildShape(reg, sh, in) })
 
 	ledger := zzLedger(sh, in)
@@ -82,8 +86,13 @@ func VerifValued() {
 		return
 	}
 	hdr := rows[0]
+	off := 1
+	if len(hdr) > 1 && hdr[1].text == "Comm" {
+		off = 2
+	}
+	v.Assert((off == 2) == detail, "commodity-column-iff-details-requested")
 	var ends []string
-	for _, c := range hdr[1:] {
+	for _, c := range hdr[off:] {
 		ends = append(ends, c.text)
 	}
 	tol := decimal.New(int64(len(sh.bk)*2+len(sh.pr)*len(sh.bk)+2), -8)
@@ -109,6 +118,16 @@ func VerifValued() {
 	for _, row := range rows[1:] {
 		name := row[0].text
 		if name == "" {
+			// continuation row of the current account (another commodity)
+			if off == 2 && cur != "" && strings.HasPrefix(cur, "Assets") && section == 0 {
+				for j := range ends {
+					got := decimal.Zero
+					if row[off+j].isNum {
+						got = row[off+j].num
+					}
+					zzCheckDetailCell(sh, in, val, ledger, cur, row[1].text, ends[j], got, tol)
+				}
+			}
 			continue
 		}
 		switch name {
@@ -137,13 +156,15 @@ func VerifValued() {
 			continue
 		}
 		for j := range ends {
-			cell := row[1+j]
+			cell := row[off+j]
 			got := decimal.Zero
 			if cell.isNum {
 				got = cell.num
 			}
 			D := ends[j]
 			switch {
+			case off == 2 && strings.HasPrefix(cur, "Assets"):
+				zzCheckDetailCell(sh, in, val, ledger, cur, row[1].text, D, got, tol)
 			case zzIsAL(cur):
 				// mark-to-market: sum of positions times the latest price on or before D
 				want := decimal.Zero
@@ -207,4 +228,24 @@ func VerifValued() {
 		}
 	}
 	v.Observe("rows", len(rows))
+}
+
+// zzCheckDetailCell: with -s the value of one commodity's position is shown on its own row.
+func zzCheckDetailCell(sh zzShape, in zzInputs, val int, ledger []zzEntry, acc, com, D string, got, tol decimal.Decimal) {
+	for c := 0; c < 3; c++ {
+		if zzComms[c] != com {
+			continue
+		}
+		pos := decimal.Zero
+		for _, e := range ledger {
+			if e.acc == acc && e.com == com && e.day <= D {
+				pos = pos.Add(e.q)
+			}
+		}
+		want := decimal.Zero
+		if p, ok := zzPriceIn(sh, in, val, c, D); ok {
+			want = pos.Mul(p)
+		}
+		v.Assert(got.Sub(want).Abs().LessThanOrEqual(tol), "per-commodity-value-is-position-times-latest-price")
+	}
 }
